@@ -204,6 +204,17 @@ Section TestFns.
     | (kx, ky) :: r => if x <=? kx then ky else tf_pwl_loop kx ky r x
     end.
 
+  (** k * (x - r)^p by repeated multiplication ( acc := d; acc = acc*d  p-1 times ); p = 0 gives k.
+      Odd p: non-decreasing and FLAT at the root r (Newton converges only linearly there);
+      the derivative is the same family with k*p and p-1. *)
+  Fixpoint tf_ipow (d : T) (p : nat) : T :=
+    match p with
+    | O => one
+    | S O => d
+    | S q => d * tf_ipow d q
+    end.
+  Definition tf_shpow (k r : T) (p : nat) (x : T) : T := k * tf_ipow (x - r) p.
+
   (** k * x^m - c  (math.Pow; the storage-routing S = k Q^m shape) *)
   Definition tf_pow (k m c x : T) : T := k * apow x m - c.
 End TestFns.
@@ -220,4 +231,5 @@ Section Driver.
   Definition c18_tf_poly : list T -> T -> T := tf_poly.
   Definition c18_tf_pwl : list (T * T) -> T -> T := tf_pwl.
   Definition c18_tf_pow : T -> T -> T -> T -> T := tf_pow.
+  Definition c18_tf_shpow : T -> T -> nat -> T -> T := tf_shpow.
 End Driver.
